@@ -1,0 +1,162 @@
+//! Verification hooks, compiled only with the cargo feature `coupe_verif`.
+//!
+//! Nothing here changes what the algorithms compute: the hooks record values
+//! the run actually used (trace sink), re-export private pure functions, and
+//! let a test harness serialise ArcSwap's shared-memory accesses.
+use std::cell::Cell;
+use std::sync::atomic::AtomicBool;
+use std::sync::atomic::AtomicUsize;
+use std::sync::atomic::Ordering;
+use std::sync::Arc;
+use std::sync::Mutex;
+use std::sync::RwLock;
+
+// ---------------------------------------------------------------- trace sink
+
+static TRACE: Mutex<Vec<(&'static str, Vec<u64>)>> = Mutex::new(Vec::new());
+static TRACE_ON: AtomicBool = AtomicBool::new(false);
+
+/// Start (or stop) recording; recording is off by default.
+pub fn trace_enable(on: bool) {
+    TRACE_ON.store(on, Ordering::SeqCst);
+}
+
+pub fn trace_enabled() -> bool {
+    TRACE_ON.load(Ordering::Relaxed)
+}
+
+/// Append a record to the trace (no-op unless recording is enabled).
+pub fn record(kind: &'static str, data: Vec<u64>) {
+    if trace_enabled() {
+        TRACE.lock().unwrap().push((kind, data));
+    }
+}
+
+/// Take all the records accumulated so far.
+pub fn drain() -> Vec<(&'static str, Vec<u64>)> {
+    std::mem::take(&mut *TRACE.lock().unwrap())
+}
+
+// ------------------------------------------------- ArcSwap access scheduling
+
+/// `(task, kind, index, value)`
+pub type Hook = dyn Fn(usize, u8, usize, usize) + Send + Sync;
+
+static HOOK: RwLock<Option<Arc<Hook>>> = RwLock::new(None);
+
+thread_local! {
+    static TASK: Cell<usize> = Cell::new(usize::MAX);
+}
+
+/// A pass begins; `task` = number of chunks of the pass.
+pub const PASS_BEGIN: u8 = 0;
+pub const TASK_BEGIN: u8 = 1;
+pub const TASK_END: u8 = 2;
+/// Emitted *before* a shared access: the harness may block here.
+pub const YIELD: u8 = 3;
+/// `value` = 1 if the lock was acquired.
+pub const CAS: u8 = 10;
+pub const READ_LOCK: u8 = 11;
+pub const READ_PART: u8 = 12;
+pub const STORE_PART: u8 = 13;
+pub const UNLOCK: u8 = 14;
+
+pub fn set_hook(h: Option<Arc<Hook>>) {
+    *HOOK.write().unwrap() = h;
+}
+
+#[inline]
+pub fn event(kind: u8, index: usize, value: usize) {
+    let h = HOOK.read().unwrap().clone();
+    if let Some(h) = h {
+        h(TASK.with(|t| t.get()), kind, index, value);
+    }
+}
+
+pub fn pass_begin(chunks: usize) {
+    let h = HOOK.read().unwrap().clone();
+    if let Some(h) = h {
+        h(chunks, PASS_BEGIN, 0, 0);
+    }
+}
+
+pub fn task_begin(task: usize) {
+    TASK.with(|t| t.set(task));
+    event(TASK_BEGIN, 0, 0);
+}
+
+pub fn task_end() {
+    event(TASK_END, 0, 0);
+    TASK.with(|t| t.set(usize::MAX));
+}
+
+/// An `AtomicBool` lock whose accesses are announced to the hook.
+#[derive(Debug)]
+pub struct TracedBool<'a> {
+    index: usize,
+    inner: &'a AtomicBool,
+}
+
+pub fn traced_bools(v: &[AtomicBool]) -> Vec<TracedBool<'_>> {
+    v.iter()
+        .enumerate()
+        .map(|(index, inner)| TracedBool { index, inner })
+        .collect()
+}
+
+impl TracedBool<'_> {
+    pub fn load(&self, order: Ordering) -> bool {
+        event(YIELD, self.index, 0);
+        let v = self.inner.load(order);
+        event(READ_LOCK, self.index, v as usize);
+        v
+    }
+
+    pub fn store(&self, val: bool, order: Ordering) {
+        event(YIELD, self.index, 0);
+        self.inner.store(val, order);
+        event(UNLOCK, self.index, val as usize);
+    }
+
+    pub fn compare_exchange(
+        &self,
+        current: bool,
+        new: bool,
+        success: Ordering,
+        failure: Ordering,
+    ) -> Result<bool, bool> {
+        event(YIELD, self.index, 0);
+        let r = self.inner.compare_exchange(current, new, success, failure);
+        event(CAS, self.index, r.is_ok() as usize);
+        r
+    }
+}
+
+/// An `AtomicUsize` part id whose accesses are announced to the hook.
+#[derive(Debug)]
+pub struct TracedUsize<'a> {
+    index: usize,
+    inner: &'a AtomicUsize,
+}
+
+pub fn traced_usizes(v: &[AtomicUsize]) -> Vec<TracedUsize<'_>> {
+    v.iter()
+        .enumerate()
+        .map(|(index, inner)| TracedUsize { index, inner })
+        .collect()
+}
+
+impl TracedUsize<'_> {
+    pub fn load(&self, order: Ordering) -> usize {
+        event(YIELD, self.index, 0);
+        let v = self.inner.load(order);
+        event(READ_PART, self.index, v);
+        v
+    }
+
+    pub fn store(&self, val: usize, order: Ordering) {
+        event(YIELD, self.index, 0);
+        self.inner.store(val, order);
+        event(STORE_PART, self.index, val);
+    }
+}
